@@ -80,12 +80,15 @@ Definition sel_mon (pbits : Z) (n : nat) (counts : list N) : bool :=
     (sphere 1-d: 20x, sphere 5-d: 10x, badly scaled: 100x; the worst ratios seen over 120 completion
     orders on the unchanged tree were 4e-4, 2e-3 and 6e-5); the discrete problems (optimum on a
     bound, integer grid, one-max, map size, variant/enum choice) must reach the known optimum 0 *)
-Definition bench_ok (prob : nat) (f0 fb : f64) : bool :=
+Definition bench_ok (prob : nat) (nc : N) (f0 fb : f64) : bool :=
   match prob with
   | 0%nat => fle fb (fmul f0 (of_bits 0x3FA999999999999A))   (* 0.05 *)
   | 1%nat => fle fb (fmul f0 (of_bits 0x3FB999999999999A))   (* 0.1 *)
   | 2%nat => fle fb (fmul f0 (of_bits 0x3F847AE147AE147B))   (* 0.01 *)
   | 7%nat => fle fb (fmul f0 (of_bits 0x3FA999999999999A))   (* tiny length scale (1e-12): 0.05 *)
+  | 10%nat => (* needs steps far below the spec scale; sequential: 1e-16 (worst of 30 on the unchanged tree: 2e-24);
+                 four at a time the trajectory depends on the completion order: 1e-6 (worst of 30: 5e-11) *)
+              fle fb (fmul f0 (if N.eqb nc 1 then of_bits 0x3C9CD2B297D889BC else of_bits 0x3EB0C6F7A0B5ED8D))
   | 9%nat => fle fb (fmul f0 (of_bits 0x3F1A36E2EB1C432D))   (* optimum 1e5 step scales away: 1e-4 (worst of 40 on the unchanged tree: 3e-13) *)
   | _ => feq fb fzero
   end.
@@ -128,5 +131,5 @@ Definition judge_meta (o : meta_obs) : string :=
       b2s (N.leb peak nc && N.eqb peak (N.min nc budget) && N.eqb started budget && ok) ++ " END"
   | MBench idx prob nc f0 fb =>
       "META idx=" ++ N2s idx ++ " acc=ok C14=1 C15=" ++ b2s (negb (fnan (of_bits fb))) ++
-      " C17=" ++ b2s (bench_ok prob (of_bits f0) (of_bits fb)) ++ " END"
+      " C17=" ++ b2s (bench_ok prob nc (of_bits f0) (of_bits fb)) ++ " END"
   end.
